@@ -49,10 +49,15 @@ class CancellableAction(Future):
             raise InvalidStateError('Action has already been ran')
 
         try:
-            with kiwipy.capture_exceptions(self):
+            # The action may be cancelled while it is running (superseded by a request made from a callback it
+            # triggered): its outcome, a result or an exception, can no longer be reported then, which is not an error
+            # of the action
+            try:
                 result = self._action(*args, **kwargs)
-                # The action may have been cancelled while it was running (superseded by a request made from a callback
-                # it triggered): the outcome can no longer be reported then, which is not an error of the action
+            except Exception as exception:
+                if not self.cancelled():
+                    self.set_exception(exception)
+            else:
                 if not self.cancelled():
                     self.set_result(result)
         finally:
